@@ -277,7 +277,9 @@ Definition case_variants (s : str) : list str := [s; upper s; lower s; alt_case 
 
 (* ---------- the finite per-version obligations (Oblig/C14_v2_X.v evaluate these by vm_compute).
    Letter case is not enumerated here: C14_case shows that resolution depends on the spelling only
-   through `upper`, so each spelling is evaluated once and must not be an attribute name. ---------- *)
+   through `upper`, so each spelling is evaluated once (and must not be an attribute name).
+   Positional paths are not enumerated either: C14_positional reduces them to the component /
+   subcomponent names, under the hygiene conditions checked here. ---------- *)
 Section Oblig.
 Variable t : tables.
 Variable lvl : level.
@@ -316,6 +318,38 @@ Definition tally0 := mk_tally 0 0 0 0 0 0.
 Definition tally_add (a b : tally) : tally :=
   mk_tally (k_rows a + k_rows b) (k_long a + k_long b) (k_dup a + k_dup b) (k_shadow a + k_shadow b)
            (k_reserved a + k_reserved b) (k_nolong a + k_nolong b).
+Definition tally_list (x : tally) : list N := [k_rows x; k_long x; k_dup x; k_shadow x; k_reserved x; k_nolong x].
+Definition tally_sum (l : list tally) : tally := fold_right tally_add tally0 l.
+Definition class_tally (c : long_class) : tally :=
+  match c with
+  | LNone => mk_tally 1 0 0 0 0 1
+  | LDup => mk_tally 1 0 1 0 0 0
+  | LShadow => mk_tally 1 0 0 1 0 0
+  | LReserved => mk_tally 1 0 0 0 1 0
+  | LOk _ => mk_tally 1 1 0 0 0 0
+  end.
+
+(* one row of a parent: the HL7 name must reach its own row and must not be an attribute name; the
+   long name likewise unless the row is exempt *)
+Definition row_check (get : str -> result target) (reserved : list str) (es : list sentry) (e : sentry)
+  : bool * tally :=
+  let key := se_name e in
+  let c := classify_long reserved es e in
+  (reaches get key key && negb (smem key reserved)
+   && match c with LOk l => reaches get key l | _ => true end,
+   class_tally c).
+Definition check_rows (label : str) (get : str -> result target) (reserved : list str) (es : list sentry)
+  : list str * tally :=
+  let rs := map (fun e => (e, row_check get reserved es e)) es in
+  (flat_map (fun x : sentry * (bool * tally) =>
+               if fst (snd x) then [] else [label ++ "/" ++ se_name (fst x)]) rs,
+   tally_sum (map (fun x : sentry * (bool * tally) => snd (snd x)) rs)).
+
+(* keys are the entries' own names, pairwise distinct *)
+Definition keys_ok (st : structure) : bool :=
+  forallb (fun p => streqb (fst p) (se_name (snd p))) (st_by_name st)
+  && nodupb streqb (map fst (st_by_name st)).
+
 (* digest of the alias map: which long name belongs to which child name *)
 Definition wsum (s : str) : N :=
   fst (fold_left (fun (a : N * N) b => let '(acc, i) := a in ((acc + i * code b)%N, (i + 1)%N)) s (0%N, 1%N)).
@@ -323,79 +357,57 @@ Definition alias_pair (name : str) (long : option str) : N :=
   (wsum name * match long with Some x => wsum x | None => 3 end)%N.
 Definition entries_digest (es : list sentry) : N :=
   fold_left (fun acc e => (acc + alias_pair (se_name e) (long_of e))%N) es 0%N.
-Definition tally_list (x : tally) : list N := [k_rows x; k_long x; k_dup x; k_shadow x; k_reserved x; k_nolong x].
-Definition tally_sum (l : list tally) : tally := fold_right tally_add tally0 l.
-
-(* all rows of one parent: (failing spellings, tally).  The HL7 name must reach its own row and must
-   not be an attribute name; the long name likewise unless the row is exempt. *)
-Definition check_rows (label : str) (get : str -> result target) (reserved : list str) (es : list sentry)
-  : list str * tally :=
-  fold_right
-    (fun e acc =>
-       let '(bad, k) := acc in
-       let key := se_name e in
-       let bad1 := if reaches get key key && negb (smem key reserved) then [] else [label ++ "/" ++ key] in
-       match classify_long reserved es e with
-       | LNone => (bad1 ++ bad, tally_add (mk_tally 1 0 0 0 0 1) k)
-       | LDup => (bad1 ++ bad, tally_add (mk_tally 1 0 1 0 0 0) k)
-       | LShadow => (bad1 ++ bad, tally_add (mk_tally 1 0 0 1 0 0) k)
-       | LReserved => (bad1 ++ bad, tally_add (mk_tally 1 0 0 0 1 0) k)
-       | LOk l => (bad1 ++ (if reaches get key l then [] else [label ++ "/" ++ key ++ "/" ++ l]) ++ bad,
-                   tally_add (mk_tally 1 1 0 0 0 0) k)
-       end)
-    ([], tally0) es.
-
-(* keys are the entries' own names, pairwise distinct *)
-Definition keys_ok (st : structure) : bool :=
-  forallb (fun p => streqb (fst p) (se_name (snd p))) (st_by_name st)
-  && nodupb streqb (map fst (st_by_name st)).
 
 (* ---- a segment and its field rows ---- *)
 Definition check_segment (p : str * sref) : list str * tally * N :=
   match parent_segment t (fst p) with
   | Ok s =>
-      if has_map_st (s_st s) && keys_ok (s_st s) && negb (bmem US (fst p)) && streqb (upper (fst p)) (fst p)
+      if has_map_st (s_st s) && keys_ok (s_st s)
       then (check_rows (fst p) (seg_getattr t s) reserved_Segment (entries (s_st s)),
             entries_digest (entries (s_st s)))
       else ([fst p ++ "/shape"], tally0, 0%N)
   | Err _ => ([fst p], tally0, 0%N)
   end.
 
-(* ---- a field parent (named fname, reference r) and its component rows; a leaf field has none ---- *)
-Definition check_field (fname : str) (r : sref) : list str * tally :=
-  match mk_field t lvl (Some fname) None (Some r) with
-  | Err _ => ([fname], tally0)
+(* ---- a complex datatype seen from a field of that datatype: its component rows.  Resolution by
+   name / long name depends on the field only through its datatype and the two maps of its structure
+   (ResolveFacts.field_find_same_maps), which are those of this representative ---- *)
+Definition struct_field (d : str) : result field :=
+  match parse_structure t (SSeqDt (mk_info (Some d) None None (-1))) with
+  | Ok st => Ok (mk_field_rec None (Some d) (Some st) [])
+  | Err x => Err x
+  end.
+Definition check_struct (p : str * list srow) : list str * tally :=
+  match struct_field (fst p) with
   | Ok f =>
       match f_st f with
       | Some st =>
-          if has_map_st st then
-            if keys_ok st && negb (base t (f_dt f)) && negb (is_varies (f_dt f))
-            then check_rows fname (field_getattr t lvl f) reserved_Field (entries st)
-            else ([fname ++ "/shape"], tally0)
-          else if base t (f_dt f) || is_varies (f_dt f) || opt_is_none (f_dt f) then ([], tally0)
-          else ([fname ++ "/leaf"], tally0)
-      | None => ([fname], tally0)
+          if has_map_st st && keys_ok st && negb (base t (f_dt f)) && negb (is_varies (f_dt f))
+          then check_rows (fst p) (field_getattr t lvl f) reserved_Field (entries st)
+          else ([fst p ++ "/shape"], tally0)
+      | None => ([fst p], tally0)
       end
+  | Err _ => ([fst p], tally0)
   end.
 
-(* ---- a component parent (a component row of a datatype) and its subcomponent rows ---- *)
-Definition check_component (cname : str) (r : sref) : list str * tally :=
-  match component_of_entry t lvl (mk_sentry cname r CMP) with
-  | Err _ => ([cname], tally0)
+(* ---- a component parent (a DATATYPES entry, as the field creates it) and its subcomponent rows ---- *)
+Definition check_component (p : str * sref) : list str * tally :=
+  match component_of_entry t lvl (mk_sentry (fst p) (snd p) CMP) with
+  | Err _ => ([fst p], tally0)
   | Ok c =>
       match c_st c with
       | Some st =>
           if has_map_st st then
             if keys_ok st
-            then check_rows cname (comp_getattr t c) reserved_Component (entries st)
-            else ([cname ++ "/shape"], tally0)
+            then check_rows (fst p) (comp_getattr t c) reserved_Component (entries st)
+            else ([fst p ++ "/shape"], tally0)
           else ([], tally0)
-      | None => ([cname], tally0)
+      | None => ([fst p], tally0)
       end
   end.
 
-(* the field parents of a version: every FIELDS entry, and every segment row that carries its own
-   (inline) reference instead of the FIELDS entry of its name *)
+(* ---- the field parents of a version: every FIELDS entry, and every segment row that carries its
+   own (inline) reference instead of the FIELDS entry of its name ---- *)
 Definition inline_rows (r : sref) : list (str * sref) :=
   match r with
   | SSeqIn false rows _ =>
@@ -404,56 +416,69 @@ Definition inline_rows (r : sref) : list (str * sref) :=
   end.
 Definition field_parents : list (str * sref) :=
   t_fields t ++ flat_map (fun p => inline_rows (snd p)) (t_segments t).
-(* the component parents: every DATATYPES entry (the reference a struct row stands for) *)
-Definition component_parents : list (str * sref) := t_components t.
+(* a field parent is <SEG>_<i> in upper case, and is a leaf or has the components of a complex datatype *)
+Definition field_parent_ok (p : str * sref) : bool :=
+  streqb (upper (fst p)) (fst p)
+  && Nat.eqb (length (bsplit US (fst p))) 2
+  && match snd p with
+     | SLeaf _ => true
+     | SSeqDt i => match i_dt i with
+                   | Some d => has_struct t d && negb (base t (Some d)) && negb (is_varies (Some d))
+                   | None => false
+                   end
+     | _ => false
+     end.
 
-(* ---- positional hygiene: no child name, long name or DATATYPES key has the shape of a positional
-   path <field>_<j> or <field>_<j>_<k> of a field parent, and no datatype is named like a field ---- *)
+(* ---- positional hygiene: a name has the shape of a positional path of one of `fields` ---- *)
 Definition path_shaped (fields : list str) (x : str) : bool :=
   match bsplit US (upper x) with
   | [a; b; c] => opt_is_some (py_int c) && smem (a ++ "_" ++ b) fields
   | [a; b; c; d] => opt_is_some (py_int c) && opt_is_some (py_int d) && smem (a ++ "_" ++ b) fields
   | _ => false
   end.
-Definition all_longs : list str :=
+(* no DATATYPES key (they are the child names of every complex datatype) and no long name of a
+   DATATYPES entry is a positional path of a field parent: such a path would be taken for that name
+   (or refused as ChildNotValid) instead of being decoded *)
+Definition component_longs : list str :=
   flat_map (fun p => match long_of (mk_sentry [] (snd p) CMP) with Some l => [l] | None => [] end) (t_components t).
 Definition paths_clean : bool :=
   let fields := map fst field_parents in
   forallb (fun k => negb (path_shaped fields k)) (map fst (t_components t))
-  && forallb (fun l => negb (path_shaped fields l)) all_longs
-  && forallb (fun d => negb (smem (fst d) fields)) (t_structs t).
+  && forallb (fun l => negb (path_shaped fields l)) component_longs.
+(* the rows of every datatype are DATATYPES entries by name (so the two lists above cover them) *)
+Definition structs_by_name : bool :=
+  forallb (fun p => forallb (fun x => match x with
+                                     | SByName CMP n _ _ => opt_is_some (slookup n (t_components t))
+                                     | _ => false end) (snd p)) (t_structs t).
 
-(* digest over the field rows of every segment (as the segment sees them) and every DATATYPES entry *)
-Definition seg_digest (p : str * sref) : N :=
-  match parent_segment t (fst p) with
-  | Ok s => entries_digest (entries (s_st s))
-  | Err _ => 0%N
-  end.
 Definition components_digest : N :=
   fold_left (fun acc p => (acc + alias_pair (fst p) (long_of (mk_sentry [] (snd p) CMP)))%N) (t_components t) 0%N.
 
 Record c14_report := mk_report {
   r_bad_segments : list str;        (* failing segment-level spellings *)
-  r_bad_fields : list str;          (* failing spellings under field parents *)
-  r_bad_components : list str;      (* failing spellings under component parents *)
+  r_bad_structs : list str;         (* failing spellings of component rows under a field *)
+  r_bad_components : list str;      (* failing spellings of subcomponent rows under a component *)
+  r_bad_field_parents : list str;   (* field parents of unexpected shape *)
   r_seg : list N;                   (* tally of the field rows of all segments *)
-  r_field : list N;                 (* tally of the component rows of all field parents *)
+  r_struct : list N;                (* tally of the component rows of all complex datatypes *)
   r_comp : list N;                  (* tally of the subcomponent rows of all component parents *)
-  r_parents : list N;               (* segments, field parents, component parents *)
+  r_parents : list N;               (* segments, complex datatypes, component parents, field parents *)
   r_paths_clean : bool;
   r_digest : N
 }.
 
 Definition report : c14_report :=
   let segs := map check_segment (t_segments t) in
-  let flds := map (fun p => check_field (fst p) (snd p)) field_parents in
-  let cmps := map (fun p => check_component (fst p) (snd p)) component_parents in
-  mk_report (flat_map (fun x => fst (fst x)) segs) (flat_map fst flds) (flat_map fst cmps)
+  let sts := map check_struct (t_structs t) in
+  let cmps := map check_component (t_components t) in
+  let fps := field_parents in
+  mk_report (flat_map (fun x => fst (fst x)) segs) (flat_map fst sts) (flat_map fst cmps)
+            (map fst (filter (fun p => negb (field_parent_ok p)) fps))
             (tally_list (tally_sum (map (fun x => snd (fst x)) segs)))
-            (tally_list (tally_sum (map snd flds)))
+            (tally_list (tally_sum (map snd sts)))
             (tally_list (tally_sum (map snd cmps)))
-            [N.of_nat (length segs); N.of_nat (length flds); N.of_nat (length cmps)]
-            paths_clean
+            [N.of_nat (length segs); N.of_nat (length sts); N.of_nat (length cmps); N.of_nat (length fps)]
+            (paths_clean && structs_by_name)
             ((fold_left (fun acc x => (acc + snd x)%N) segs 0%N + components_digest) mod 1000000007)%N.
 
 (* the part of the report that must hold of any version; the counts are pinned per version *)
@@ -461,11 +486,16 @@ Definition only_wildcard (l : list str) : bool :=
   match l with [] => true | [x] => streqb x "ANYHL7SEGMENT" | _ => false end.
 Definition report_fine (r : c14_report) : bool :=
   only_wildcard (r_bad_segments r)
-  && match r_bad_fields r, r_bad_components r with [], [] => true | _, _ => false end
+  && match r_bad_structs r, r_bad_components r, r_bad_field_parents r with [], [], [] => true | _, _, _ => false end
   && r_paths_clean r.
-(* exempt rows = rows whose long name is not claimed to address them (shared / shadowed / reserved) *)
+(* exempt rows = rows whose long name is not claimed to address them (shared / shadowed / reserved),
+   at the three levels: fields of segments, components of datatypes, subcomponents of components *)
 Definition exempt_of (l : list N) : N := (nth 2 l 0 + nth 3 l 0 + nth 4 l 0)%N.
-Definition exempt_rows (r : c14_report) : N * N * N := (exempt_of (r_seg r), exempt_of (r_field r), exempt_of (r_comp r)).
+Definition exempt_rows (r : c14_report) : N * N * N := (exempt_of (r_seg r), exempt_of (r_struct r), exempt_of (r_comp r)).
+
+(* what an obligation file pins: the verdict, the tallies, the parent counts and the alias digest *)
+Definition summary (r : c14_report) : bool * list N * list N * list N * list N * N :=
+  (report_fine r, r_seg r, r_struct r, r_comp r, r_parents r, r_digest r).
 
 End Oblig.
 
